@@ -376,8 +376,12 @@ def run(check, mirror, tier):
             jobs += [job(tname, template, v) for v in ops]
         else:
             jobs.append(job(tname, template, None))
+    from checks import C06_layout
+    C06_layout.jobs_for(check, mirror, rb, crate, jobs, tier, {})
     run_parallel(check, jobs, par=14)
 
+    if getattr(check, "only", None) and not any("K" in o_ or "k_" in o_ for o_ in check.only):
+        return
     # ---------------------------------------------------------------- K: string-literal escapes of the lexer
     kf = prepare_k_file(check, mirror, "parser_lexer.rs")
     mirror.inject("feel-parser/src/lexer.rs", kf, "verif_k")
